@@ -638,6 +638,8 @@ class AbsMemo:
 
     def insert(self, I, k, v):
         keys = self.mat(I)
+        if hasattr(k, "resolve"):
+            k = k.resolve(I)
         cell = M.rc_of(I, v)
         if is_sym(k):
             lo, hi = bounds(k)
